@@ -190,7 +190,8 @@ def history(ncaps, k, ntools, entries=None):
 HARNESSES = {
     "history": {"make": history, "witness_every": 37,
                 "jobs": lambda tier: ([{"ncaps": 1, "k": 3, "ntools": 1, "entries": ["metabolize_auto", "execute_tool_call"]}, {"ncaps": 1, "k": 2, "ntools": 2}] if tier == "quick" else
-                                      [{"ncaps": 3, "k": 2, "ntools": 2}, {"ncaps": 2, "k": 3, "ntools": 2}, {"ncaps": 6, "k": 1, "ntools": 1}]),
+                                      [{"ncaps": 1, "k": 3, "ntools": 1}, {"ncaps": 2, "k": 2, "ntools": 2}, {"ncaps": 3, "k": 2, "ntools": 1},
+                                       {"ncaps": 6, "k": 1, "ntools": 1}]),
                 "clauses": ["C03.a", "C03.b", "C03.c"]},
 }
 
@@ -202,7 +203,7 @@ META = {
     },
     "files": ["operon_ai/organelles/mitochondria.py", "operon_ai/organelles/nucleus.py"],
     "bounds": {"quick": "1 capability (allowed in {none-restriction, {}, {c}}; required in {{}, {c}}), one tool name, 1 registration + k=3 further actions (call / re-register under the same name / call ...) through metabolize and execute_tool_call; 2 tool names with k=2 through all entry points incl. a request object that changes its name between reads; 2 capabilities, 2 tool names, k=1; tool loop max_iterations=2 with <=2 calls per round",
-               "thorough": "3 capabilities k=2; 2 capabilities k=3; all 6 capabilities with one tool and k=1"},
+               "thorough": "1 capability, one tool, k=3 through all entry points; 2 capabilities, 2 tools, k=2; 3 capabilities, one tool, k=2; all 6 capabilities with one tool and k=1 (3 capabilities x 2 tools x k=2 and 2 x 2 x k=3 exceed 5 minutes each on 16 cores: outside)"},
     "outside": ["tools whose declared capability attribute is a non-iterable", "real LLM providers", "argument passing to tools"],
     "float_argument": "none",
     "assumptions": ["provider is an adversarial stub", "tool bodies are counters"],
